@@ -4,6 +4,7 @@ import (
 	"bufio"
 	"encoding/json"
 	"fmt"
+	"io/fs"
 	"math/rand"
 	"os"
 	"path/filepath"
@@ -124,6 +125,18 @@ func (r *engRun) gc(index bool) {
 		if entries, _ := os.ReadDir(filepath.Join(r.root, ".dawn", "build", "temp")); len(entries) != 0 {
 			r.oracle("C14 gc left %d stray temporaries", len(entries))
 		}
+		// ... wherever they are: after a collection the state directory holds records and the index, nothing else
+		filepath.WalkDir(filepath.Join(r.root, ".dawn"), func(p string, d fs.DirEntry, err error) error {
+			if err != nil || d.IsDir() {
+				return nil
+			}
+			rel, _ := filepath.Rel(filepath.Join(r.root, ".dawn"), p)
+			if strings.HasPrefix(rel, "build/targets/") || strings.HasPrefix(rel, "build/sources/") || rel == "build/index.json" {
+				return nil
+			}
+			r.oracle("C14 gc left the stray file .dawn/%s", rel)
+			return nil
+		})
 	}
 	r.h.Ops = append(r.h.Ops, mOp{Op: "gc", Index: index, Obs: obs})
 }
@@ -157,6 +170,19 @@ func urlUnescape(s string) (string, error) {
 		}
 	}
 	return b.String(), nil
+}
+
+// whatever a killed build left behind loads: through the index, as `dawn list`, `dawn gc` and the REPL load (a kill inside
+// the index write leaves a truncated index, which must be ignored), and in full
+func (r *engRun) loadAfterCrash(point string) {
+	for _, mode := range []string{"loadindex", "load"} {
+		rep, _, hung := r.child(mode, "", nil, "")
+		if hung || rep == nil {
+			r.oracle("C03 the state left by a build killed at %s does not load (%s): no report (hung=%v)", point, mode, hung)
+		} else if rep.LoadErr != "" {
+			r.oracle("C03 the state left by a build killed at %s does not load (%s): %s", point, mode, rep.LoadErr)
+		}
+	}
 }
 
 var crashPoints = []string{"eval.before_body", "eval.after_body", "save.mkdir", "save.created", "save.written", "save.closed", "save.renamed", "eval.recorded", "index.created", "index.written"}
@@ -382,6 +408,7 @@ func runEngHistory(t *testing.T, self string, base string, seed int64, index int
 				if obs.Kind == "crash" || obs.Kind == "crash-load" {
 					forceBuild = l
 					lastCrash = obs
+					r.loadAfterCrash(point)
 				}
 			}
 		case c < 58: // gc
@@ -426,7 +453,23 @@ func runEngHistory(t *testing.T, self string, base string, seed int64, index int
 				}
 				sort.Strings(names)
 				dir := filepath.Join(r.root, r.p.Paths[s.Path])
-				switch k := rng.Intn(5); {
+				var links []string
+				for _, n := range names {
+					if s.Links[n] {
+						links = append(links, n)
+					}
+				}
+				switch k := rng.Intn(7); {
+				case k == 5: // a symbolic link in the directory is created or pointed at another file
+					n := "l0.c"
+					if len(links) > 0 {
+						n = links[rng.Intn(len(links))]
+					}
+					r.dirLink(s, n, true)
+					r.emitDir(s, "link inside a source directory points to another file")
+				case k == 6 && len(links) > 0: // the file behind a link is edited
+					r.dirLink(s, links[rng.Intn(len(links))], false)
+					r.emitDir(s, "edit of the file behind a link inside a source directory")
 				case k == 0 && len(names) > 0: // rename
 					old := names[rng.Intn(len(names))]
 					nn := "r_" + old
@@ -437,12 +480,17 @@ func runEngHistory(t *testing.T, self string, base string, seed int64, index int
 						os.Rename(filepath.Join(dir, old), filepath.Join(dir, nn))
 						s.Dir[nn] = s.Dir[old]
 						delete(s.Dir, old)
+						if s.Links[old] {
+							s.Links[nn] = true
+							delete(s.Links, old)
+						}
 						r.emitDir(s, "rename inside a source directory")
 					}
 				case k == 1 && len(names) > 1: // delete
 					old := names[rng.Intn(len(names))]
 					os.Remove(filepath.Join(dir, old))
 					delete(s.Dir, old)
+					delete(s.Links, old)
 					r.emitDir(s, "delete inside a source directory")
 				case k == 2: // add
 					r.dirPut(s, fmt.Sprintf("n%d.c", r.p.nextLit))
